@@ -387,6 +387,54 @@ def relevant_hypotheses(ob):
     return keep if len(keep) < len(ob.pc) else None
 
 
+def const_names(term):
+    """names of the uninterpreted constants and functions in a term"""
+    seen, names = set(), set()
+    todo = [term]
+    while todo:
+        t = todo.pop()
+        if t.get_id() in seen:
+            continue
+        seen.add(t.get_id())
+        if z3.is_quantifier(t):
+            todo.append(t.body())
+            continue
+        if z3.is_app(t):
+            if t.decl().kind() == z3.Z3_OP_UNINTERPRETED:
+                names.add(t.decl().name())
+            todo.extend(t.children())
+    return names
+
+
+def reachable_hypotheses(ob):
+    """hypotheses connected to the goal through shared symbols, ignoring hub symbols that occur in most of them
+    (dropping hypotheses is always sound)"""
+    hs = [(p, const_names(p)) for p in ob.pc]
+    if len(hs) < 12:
+        return None
+    freq = {}
+    for _, ns in hs:
+        for n in ns:
+            freq[n] = freq.get(n, 0) + 1
+    hubs = {n for n, c in freq.items() if c > 0.4 * len(hs)}
+    cur = const_names(ob.goal) - hubs
+    keep = set()
+    changed = True
+    while changed:
+        changed = False
+        for i, (p, ns) in enumerate(hs):
+            if i in keep:
+                continue
+            if (ns - hubs) & cur or not (ns - hubs):
+                keep.add(i)
+                if (ns - hubs) - cur:
+                    cur |= (ns - hubs)
+                changed = True
+    if len(keep) >= len(hs):
+        return None
+    return [hs[i][0] for i in sorted(keep)]
+
+
 def solve(eng, ob: Obligation, timeout_ms=30000, extra_axioms=(), seed=0, mbqi=False, pc=None):
     s = z3.Solver()
     s.set("timeout", timeout_ms)
@@ -476,6 +524,10 @@ def verify_one(eng, key, ctx=None, timeout_ms=30000, alias=None):
         plan = [(min(timeout_ms, 5000), 0, False, None)]
         if small is not None:
             plan.append((min(timeout_ms, 20000), 0, False, small))
+        reach = reachable_hypotheses(ob)
+        if reach is not None:
+            plan.append((min(timeout_ms, 10000), 0, False, reach))
+            plan.append((min(timeout_ms, 10000), 0, True, reach))
         plan += [(min(timeout_ms, 10000), 0, True, None), (min(timeout_ms, 10000), 7, False, None),
                  (timeout_ms, 13, True, None)]
         for tmo, seed, mbqi, hyps in plan:
